@@ -672,6 +672,109 @@ def r01_14(ctx):
         ctx.ok(R, 'rasterizer::ActiveEdge.fullx|written by add_edge and step only', '-', '%d stores, all in add_edge / ActiveEdge::step' % n)
 
 
+# ---------------------------------------------------------------- R01.15: fixed-point format discipline
+# The rasteriser mixes three integer formats that the compiler cannot tell apart (all are `i32`): whole pixels, 30.2
+# sample coordinates (Dot2) and 16.16 (Dot16).  The formats of the fields are frozen here from the declarations in
+# rasterizer.rs (their alias names are erased in MIR); the format of a term follows from the conversion helpers.
+FIX_FIELDS = {
+    ('raqote::rasterizer::Edge', 'x1'): 'D2', ('raqote::rasterizer::Edge', 'y1'): 'D2', ('raqote::rasterizer::Edge', 'x2'): 'D2',
+    ('raqote::rasterizer::Edge', 'y2'): 'D2', ('raqote::rasterizer::Edge', 'control_x'): 'D2', ('raqote::rasterizer::Edge', 'control_y'): 'D2',
+    ('raqote::rasterizer::ActiveEdge', 'x2'): 'D2', ('raqote::rasterizer::ActiveEdge', 'y2'): 'D2',
+    ('raqote::rasterizer::ActiveEdge', 'fullx'): 'D16', ('raqote::rasterizer::ActiveEdge', 'next_x'): 'D16', ('raqote::rasterizer::ActiveEdge', 'next_y'): 'D16',
+    ('raqote::rasterizer::ActiveEdge', 'old_x'): 'D16', ('raqote::rasterizer::ActiveEdge', 'old_y'): 'D16',
+    ('raqote::rasterizer::Rasterizer', 'cur_y'): 'D2', ('raqote::rasterizer::Rasterizer', 'width'): 'D2', ('raqote::rasterizer::Rasterizer', 'height'): 'D2',
+    ('raqote::rasterizer::Rasterizer', 'bounds_top'): 'PX', ('raqote::rasterizer::Rasterizer', 'bounds_bottom'): 'PX',
+    ('raqote::rasterizer::Rasterizer', 'bounds_left'): 'PX', ('raqote::rasterizer::Rasterizer', 'bounds_right'): 'PX',
+}
+FIX_CONV = {    # helper -> (argument format, result format)
+    'raqote::rasterizer::f32_to_dot2': (None, 'D2'), 'raqote::rasterizer::dot2_to_dot16': ('D2', 'D16'), 'raqote::rasterizer::dot16_to_dot2': ('D16', 'D2'),
+    'raqote::rasterizer::dot2_to_int': ('D2', 'PX'), 'raqote::rasterizer::int_to_dot2': ('PX', 'D2'),
+}
+
+
+def fix_format(an, t, depth=0):
+    """'D2' | 'D16' | 'PX' | None (unknown / a pure number): the fixed-point format of an integer term"""
+    t = strip_all(t)
+    h = t[0]
+    if depth > 12:
+        return None
+    if h == 'field' and (t[3], t[2]) in FIX_FIELDS:
+        return FIX_FIELDS[(t[3], t[2])]
+    if h == 'call' and isinstance(t[1], str) and t[1] in FIX_CONV:
+        return FIX_CONV[t[1]][1]
+    if h == 'cast' and t[1] == 'IntToInt':
+        return fix_format(an, t[3], depth + 1)
+    if h in ('bin', 'ovf') and t[1] in ('Add', 'Sub', 'AddWithOverflow', 'SubWithOverflow'):
+        a, c = fix_format(an, t[2], depth + 1), fix_format(an, t[3], depth + 1)
+        # adding a plain number (a rounding bias, a `+ 3` margin) keeps the format
+        return a if c is None or a == c else (c if a is None else 'MIXED')
+    if h == 'call' and isinstance(t[1], str) and t[1].split('::')[-1] in ('max', 'min') and len(t[2]) == 2:
+        a, c = fix_format(an, t[2][0], depth + 1), fix_format(an, t[2][1], depth + 1)
+        return a if c is None or a == c else (c if a is None else 'MIXED')
+    if h == 'phi':
+        fs = set(fix_format(an, x, depth + 1) for x in an.phi_terms(t))
+        fs.discard(None)
+        return fs.pop() if len(fs) == 1 else (None if not fs else 'MIXED')
+    return None
+
+
+def r01_15(ctx):
+    """fixed-point format discipline in the rasteriser: a value stored into a field has the field's format (whole pixels,
+    30.2 sample coordinates, 16.16); the conversion helpers receive their input format; sums, differences, min/max and
+    comparisons relate values of one format.  The formats are all `i32`, so a 30.2 row stored where a 16.16 row is
+    expected compiles and is off by 2^14"""
+    R = 'R01.15'
+    n = 0
+    bad = []
+    for q in sorted(ctx.F.bodies):
+        if not q.startswith('raqote::rasterizer::'):
+            continue
+        b = ctx.F.body(q)
+        an = ctx.an(b)
+        def site(bb):
+            return call_line(b, bb)
+        # stores into formatted fields
+        for a, v, pt, kind in an.stores:
+            t = strip_all(a)
+            if kind not in ('assign', 'call') or t[0] != 'field' or (t[3], t[2]) not in FIX_FIELDS:
+                continue
+            n += 1
+            want = FIX_FIELDS[(t[3], t[2])]
+            got = fix_format(an, v)
+            if got is not None and got != want:
+                bad.append((q, pt[0], '%s.%s (%s) is assigned %s, a %s value' % (t[3].split('::')[-1], t[2], want, fmt(b, strip_all(v))[:80], got)))
+        seen = set()
+        def scan(t0, bb):
+            for x in subterms(t0):
+                k = nosite(x)
+                if k in seen:
+                    continue
+                seen.add(k)
+                if x[0] == 'call' and isinstance(x[1], str) and x[1] in FIX_CONV and FIX_CONV[x[1]][0] and x[2]:
+                    got = fix_format(an, x[2][0])
+                    if got is not None and got != FIX_CONV[x[1]][0]:
+                        bad.append((q, bb, '%s is applied to %s, a %s value (it converts from %s)' % (x[1].split('::')[-1], fmt(b, strip_all(x[2][0]))[:80], got, FIX_CONV[x[1]][0])))
+                if x[0] == 'bin' and x[1] in ('Add', 'Sub', 'Lt', 'Le', 'Gt', 'Ge', 'Eq', 'Ne'):
+                    a2, c2 = fix_format(an, x[2]), fix_format(an, x[3])
+                    if a2 and c2 and a2 != c2 and 'MIXED' not in (a2, c2):
+                        bad.append((q, bb, '%s relates a %s value and a %s value' % (fmt(b, x)[:100], a2, c2)))
+        for d in an.defs:
+            if d.kind == 'assign' and not d.partial and d.bb in an.cfg.reach:
+                scan(an.def_term(d), d.bb)
+        for bi, dd, ct in calls_in(ctx, b):
+            scan(ct, bi)
+        for si, t in b.terminators('switch'):
+            if si in an.cfg.reach:
+                scan(an.term_at(si, len(b.blocks[si]['st']), t['o']), si)
+    ctx.floor(R, 'stores into fixed-point fields of the rasteriser', n, 20)
+    if bad:
+        q, bb, msg = bad[0]
+        b = ctx.F.body(q)
+        ctx.fail(R, short(q) + '|fixed-point formats agree', call_line(b, bb), 'in %s: %s — the formats are all i32, so this compiles; the value is off by a power of two (%d such places)' % (short(q), msg, len(bad)))
+    else:
+        ctx.ok(R, 'rasterizer|fixed-point formats agree', '-', '%d stores, conversions and comparisons agree on whole pixels / 30.2 / 16.16' % n)
+
+
 def r01_2(ctx):
     """every edge the scan cursor passes contributes its winding"""
     R = 'R01.2'
